@@ -349,3 +349,148 @@ Definition C03_layered_builder_full : Prop :=
 Example C03_example : List.length (filter is_two gen_handoff) = 16%nat /\
   Forall (@wf_instr Rdefinitions.R 3) [NoiseFreeRun.NRz 0 (1%R); NSX 0; NCX 2 0; NoiseFreeRun.NECR 1 2; NoiseFreeRun.NX 1].
 Proof. split; [vm_compute; reflexivity | repeat constructor; auto]. Qed.
+
+(* ================================================================== 6. THE INSTRUCTION LOOP AND THE COMPOSED END-TO-END THEOREM (index class)
+   Model/SimLoop.v is the executable model of _preprocess_circuit and of the BinaryCircuit branch of _apply_gates_on_circuit
+   (simulator.py:198-243, 388-430), tied to the code by the exact correspondence run of checks/c03.py (family simloop_translate:
+   the recorded method calls of the real simulator = translate_calls evaluated by vm_compute).  Vocabulary:
+     qinstr = SimRun.instr (name, qubit labels, clbit labels);  theta j / dur j = angle / duration of circ.data[j];
+     translate_calls used nq data : res (list call)   the method calls of one shot on internal indices (Rz, X, SX, CNOT, ECR,
+         relaxation, bitflip), Python exceptions as Err;  nf_prog drops the relaxation and bitflip calls;  translate = rmap nf_prog;
+     call_items cs  the item list the circuit object holds after the calls under the noise-free gate set (identity matrices for
+         relaxation / bitflip, framed matrices at the current frame otherwise);
+     nf_perform born theta dur data psi0 : front_out -> res (list R)   the shot: calls, statevector of call_items, Born rule;
+     wf_qiskit x   what Qiskit guarantees of an instruction: measure = one qubit + one clbit, cx / ecr = two DISTINCT qubits,
+         rz / sx / x / delay = one qubit, barrier / other = at least one;
+     call_on used c   every internal index of c is list.index of the call's own physical label in `used`, control <> target,
+         the k-th read-out call carries used[k];
+     meas_ranks f   for the k-th measured label its rank among the used labels;  marginal_sum g n pos t = sum of g b over the
+         n-bit lists b (ascending) with  [b[pos_0]; b[pos_1]; ...] = t. *)
+Require Import QG.Base.Res QG.Model.FixCounts QG.Model.SimRun QG.Model.SimLoop.
+Require Import QG.Proofs.FixCountsProofs QG.Proofs.SimRunKeys QG.Proofs.SimRunProofs QG.Proofs.SimLoop QG.Proofs.SimLoopE2E QG.Proofs.SimLoopC.
+
+(* the calls nf_prog drops are exactly those that append an identity matrix: the stored item list (identities included) and
+   run_items of the noise-free program denote the same state, amplitude by amplitude *)
+Theorem C03_dropped_calls_are_identity :
+  forall (T : Type) (rO rI : T) (radd rmul rsub : T -> T -> T) (ropp : T -> T),
+  ring_theory rO rI radd rmul rsub ropp eq ->
+  forall (A D : Type) (K : consts T A) (cs : list (call A D)) (psi : state T) (b : bits),
+  sem T radd rmul (call_items T rO rI radd rmul ropp A D K cs) psi b
+  = sem T radd rmul (run_items T rO rI radd rmul ropp A K (nf_prog A D cs)) psi b.
+Proof. exact call_items_sem. Qed.
+Print Assumptions C03_dropped_calls_are_identity.
+
+(* on data accepted by _process_layout the loop raises nothing, for every nqubit up to the number n of used qubits; internal
+   indices are the positions of the calls' own labels in the layout; the noise-free program is well-formed over n qubits
+   (indices < n, control <> target) *)
+Theorem C03_translate_wf :
+  forall (A D : Type) (theta : nat -> A) (dur : nat -> D)
+         (data : list SimRun.instr) (used : list BinNums.N) (meas : list (BinNums.N * BinNums.N)) (n : nat) (nq : BinNums.Z),
+  Forall wf_qiskit data -> SimRun.process_layout data = Ok (used, meas, n) -> (nq <= BinInt.Z.of_nat n)%Z ->
+  exists cs, translate_calls A D theta dur used nq data = Ok cs /\ Forall (call_on A D used) cs /\
+    translate A D theta dur used nq data = Ok (nf_prog A D cs) /\
+    Forall (NoiseFreeRun.wf_instr n) (nf_prog A D cs).
+Proof. exact translate_wf. Qed.
+Print Assumptions C03_translate_wf.
+
+(* END TO END, for every commutative ring T with the named constants and a conjugation, every Born reading `born` of an
+   amplitude as a non-negative real that depends on x * cj x only, every circuit: if run() accepts the arguments (front a = Ok f),
+   the data is as Qiskit builds it, every qubit is measured at most once and nqubit is the number of used qubits, then the loop
+   succeeds with a well-formed program prog and -- when the ideal weights do not all vanish (C14's hypothesis 0 < sum) -- run()
+   around the noise-free shot returns a dictionary whose value under every key t of |measured| characters is
+       sum over the basis states b with b[rank of k-th measured qubit] = t[k] for all k  of  ideal(b) / (sum of all ideal),
+   ideal(b) = born of the amplitude of the IDEAL circuit (textbook gates on (control, target), rz = diag(a, a e)) on psi0. *)
+Theorem C03_end_to_end :
+  forall (T : Type) (rO rI : T) (radd rmul rsub : T -> T -> T) (ropp : T -> T),
+  ring_theory rO rI radd rmul rsub ropp eq ->
+  forall (A : Type) (K : consts T A), consts_ok T rI rmul ropp A K ->
+  forall cj : T -> T, conj_ok T rI rmul ropp A K cj ->
+  forall born : T -> Rdefinitions.R,
+  (forall x y, nrm T rmul cj x = nrm T rmul cj y -> born x = born y) -> (forall x, (0 <= born x)%R) ->
+  forall (D : Type) (theta : nat -> A) (dur : nat -> D)
+         (a : args) (f : front_out) (data : list SimRun.instr) (psi0 : state T),
+  front a = Ok f -> a_circ a = CData true data -> Forall wf_qiskit data ->
+  NoDup (map fst (f_meas f)) -> f_nqubit f = BinInt.Z.of_nat (f_n f) ->
+  exists prog, translate A D theta dur (f_used f) (f_nqubit f) data = Ok prog /\
+    Forall (NoiseFreeRun.wf_instr (f_n f)) prog /\
+    let ideal := fun b => born (sem T radd rmul (ideal_items T rO rI radd rmul ropp A K prog) psi0 b) in
+    let total := rsum (map ideal (binary_vector (f_n f))) in
+    ((0 < total)%R ->
+     exists out, run_model Rdefinitions.R 0%R Rplus Rdiv rpos a
+                   (nf_perform T rO rI radd rmul ropp A D K Rdefinitions.R born theta dur data psi0) = Ok out /\
+       forall t, List.length t = List.length (f_meas f) ->
+         lookup Rdefinitions.R t out = Some (marginal_sum (fun b => (ideal b / total)%R) (f_n f) (meas_ranks f) t)).
+Proof. exact end_to_end. Qed.
+Print Assumptions C03_end_to_end.
+
+(* the same at the complex numbers: constants KC, Born rule |amplitude|^2, every hypothesis on the scalars discharged *)
+Theorem C03_end_to_end_C :
+  forall (D : Type) (theta : nat -> Rdefinitions.R) (dur : nat -> D)
+         (a : args) (f : front_out) (data : list SimRun.instr) (psi0 : state C),
+  front a = Ok f -> a_circ a = CData true data -> Forall wf_qiskit data ->
+  NoDup (map fst (f_meas f)) -> f_nqubit f = BinInt.Z.of_nat (f_n f) ->
+  exists prog, translate Rdefinitions.R D theta dur (f_used f) (f_nqubit f) data = Ok prog /\
+    Forall (NoiseFreeRun.wf_instr (f_n f)) prog /\
+    let ideal := fun b => (Cmod (sem C Cplus Cmult (ideal_items C (RtoC 0) (RtoC 1) Cplus Cmult Copp Rdefinitions.R KC prog) psi0 b) ^ 2)%R in
+    let total := rsum (map ideal (binary_vector (f_n f))) in
+    ((0 < total)%R ->
+     exists out, run_model Rdefinitions.R 0%R Rplus Rdiv rpos a
+                   (nf_perform C (RtoC 0) (RtoC 1) Cplus Cmult Copp Rdefinitions.R D KC Rdefinitions.R bornC theta dur data psi0) = Ok out /\
+       forall t, List.length t = List.length (f_meas f) ->
+         lookup Rdefinitions.R t out = Some (marginal_sum (fun b => (ideal b / total)%R) (f_n f) (meas_ranks f) t)).
+Proof. exact end_to_end_C. Qed.
+Print Assumptions C03_end_to_end_C.
+
+(* reading of the statement's vocabulary *)
+Theorem C03_end_to_end_vocabulary :
+  (forall z : C, bornC z = (Cmod z ^ 2)%R) /\
+  (forall f, meas_ranks f = map (RelabelRank.rank (map BinNat.N.to_nat (f_used f))) (map (fun qc => BinNat.N.to_nat (fst qc)) (f_meas f))) /\
+  (forall g n pos t, marginal_sum g n pos t = rsum (map g (filter (fun b => key_eqb (sel b pos) t) (binary_vector n)))) /\
+  (forall s pos, sel s pos = map (fun i => nth i s false) pos).
+Proof. repeat split. Qed.
+Print Assumptions C03_end_to_end_vocabulary.
+
+(* the calls of the loop, relaxation and bitflip included, fed to the builder model of BinaryCircuit (C11's bstep; the token of an
+   idle call is the exact identity): no exception, the content handed to the backend denotes call_items, and BinaryBackend.statevector's
+   model (C02_bin_spec) returns its semantics -- so `sem (call_items cs) psi0` in nf_perform IS what builder + backend compute.
+   call_wf n: indices < n, control <> target; it follows from call_on (C03_translate_wf) with n = number of used qubits. *)
+Require Import QG.Proofs.SimLoopBuilder.
+Theorem C03_calls_builder_backend :
+  forall (T : Type) (rO rI : T) (radd rmul rsub : T -> T -> T) (ropp : T -> T),
+  ring_theory rO rI radd rmul rsub ropp eq ->
+  forall (A D : Type) (K : consts T A) (ph : A -> Z * Z) (n : nat) (layout : option (list Z))
+         (cs : list (call A D)) (psi : list bool -> T),
+  Forall (call_wf A D n) cs ->
+  exists s', bexec (mat T) (mid2 T rO rI) (b_init (mat T) n layout) (call_ops T rO rI radd rmul ropp A D K ph cs) = Ok (s', nil) /\
+    map (den T rO rI) (b_content (mat T) s') = call_items T rO rI radd rmul ropp A D K cs /\
+    Forall (wf_in T n) (b_content (mat T) s') /\
+    (call_items T rO rI radd rmul ropp A D K cs <> nil ->
+     exists out, bin_statevector T rO radd rmul (mat T) (mmul T radd rmul) (mkron T rmul) (mid2 T rO rI) (mid4 T rO rI) (entry_mat T rO)
+                   n (b_content (mat T) s') psi = Ok out /\
+       state_eq T n out (sem T radd rmul (call_items T rO rI radd rmul ropp A D K cs) psi)).
+Proof. exact calls_builder_backend. Qed.
+Print Assumptions C03_calls_builder_backend.
+Theorem C03_call_on_is_wf :
+  forall (A D : Type) (used : list BinNums.N) (c : call A D), call_on A D used c -> call_wf A D (List.length used) c.
+Proof. exact call_on_call_wf. Qed.
+Print Assumptions C03_call_on_is_wf.
+
+(* non-vacuity: rz(5); delay(7) [label 7 otherwise unused: dropped]; cx(5,2) [control has the higher internal index]; barrier(2,5,3);
+   delay(2); measure 5 -> c0; ecr(2,5); measure 2 -> c1 on labels {2,5}: accepted by run(), well-formed, the calls and the
+   noise-free program computed by the model, measured ranks [1; 0] *)
+Example C03_end_to_end_example :
+  let data := [mkinstr OpRz [5%N] []; mkinstr OpDelay [7%N] []; mkinstr OpCx [5%N; 2%N] []; mkinstr OpBarrier [2%N; 5%N; 3%N] [];
+               mkinstr OpDelay [2%N] []; mkinstr OpMeasure [5%N] [0%N]; mkinstr OpEcr [2%N; 5%N] []; mkinstr OpMeasure [2%N] [1%N]] in
+  let a := mkargs (CData true data) true (PsiShape [4%Z]) (Some 3%Z) (Some (T1Len 8%Z)) (Some 2%Z) in
+  let f := mkfront [2%N; 5%N] [(5%N, 0%N); (2%N, 1%N)] 2 2%Z 3%Z in
+  front a = Ok f /\ Forall wf_qiskit data /\ NoDup (map fst (f_meas f)) /\ f_nqubit f = BinInt.Z.of_nat (f_n f) /\
+  translate_calls nat nat (fun j => j) (fun j => j) (f_used f) (f_nqubit f) data
+    = Ok [CRz 1 0; C2 KCX 1 0 5%N 2%N; CRelax 0 4 2%N; C2 KECR 0 1 2%N 5%N; CBitflip 0 2%N; CBitflip 1 5%N] /\
+  translate nat nat (fun j => j) (fun j => j) (f_used f) (f_nqubit f) data = Ok [NoiseFreeRun.NRz 1 0; NCX 1 0; NoiseFreeRun.NECR 0 1] /\
+  meas_ranks f = [1; 0]%nat.
+Proof.
+  cbv zeta. split; [vm_compute; reflexivity|]. split.
+  { repeat (apply Forall_cons; [unfold wf_qiskit; cbn; eauto; try (do 2 eexists; split; [reflexivity|discriminate]); try discriminate|]). apply Forall_nil. }
+  split. { cbn. repeat constructor; cbn; intuition discriminate. }
+  repeat split; vm_compute; reflexivity.
+Qed.
